@@ -645,7 +645,24 @@ pub fn run(a: &Args) {
         crate::c13iret::run(&mut r, a);
     }
     crate::simcpu::init();
-    guarded(&mut r, "C13|entry(arbitrary frame)|unexpected-panic", || "entryframe".into(), |r| crate::c13iret::entry_frames(r, a));
+    // the frames sweep enters the stubs inside this process: a canary child runs it first, so that a stub that brings the process
+    // down (a panic inside an interrupt stub cannot unwind) is reported as what it is instead of ending the check
+    let canary_ok = unsafe {
+        let pid = libc::fork();
+        if pid == 0 {
+            let mut scratch = Rep::new("C13", "canary");
+            crate::c13iret::entry_frames(&mut scratch, a);
+            libc::_exit(0);
+        }
+        let mut st = 0;
+        pid > 0 && libc::waitpid(pid, &mut st, 0) == pid && libc::WIFEXITED(st) && libc::WEXITSTATUS(st) == 0
+    };
+    if canary_ok {
+        guarded(&mut r, "C13|entry(arbitrary frame)|unexpected-panic", || "entryframe".into(), |r| crate::c13iret::entry_frames(r, a));
+    } else {
+        r.ev(true);
+        r.viol("C13|entry(arbitrary frame)|entering-an-installed-stub-with-some-frame-brings-the-process-down-(handler-not-called-exactly-once)", "entryframe", "the canary child that enters every stub with the frame alphabet did not finish");
+    }
     r.exhaustive = true;
     r.sample("install 14 40 true 0".into());
     r.sample("entry 14 (error code 0x123456789abcdef pushed below the frame)".into());
